@@ -130,6 +130,7 @@ Outcome runWorld(const Plan & p, Ctx & c)
       lastTime = std::max(lastTime, cur);
       bool wasStale = staleNow; staleNow = false;
       if (m.seen == 0 && cur <= 0) {SIM_PROBE("first_stamp_zero_or_negative");}
+      if (m.seen == 0 && cur == 0) {SIM_PROBE("first_stamp_exactly_zero");}
       if (m.seen == 0 && cur > 1000000000000000000LL) {SIM_PROBE("first_stamp_huge");}
       double rModel = m.update(cur);
       double rAlone = rm.update(rc::Duration(cur));
@@ -319,6 +320,7 @@ struct PropC17
     static const char * names[] = {"imu", "gps", "lidar", "odo", "joy"};
     p.name = r.pick(names);
     p.viaInitialize = r.chance(0.25);
+    const bool zeroFirst = r.chance(0.08);
     const double pCopy = r.pick({0.0, 0.0, 0.01, 0.05});
     switch (r.below(8)) {
       case 0: p.t0 = -(int64_t)r.below(5000000000ULL); break;
@@ -413,6 +415,8 @@ struct PropC17
         p.ev.push_back(H(rc_.stamp - cur, rc_.tag));
       }
     }
+    // a first stamp of exactly 0 ns (the clock origin): make the clock origin the negative of the first period
+    if (zeroFirst) {for (auto & e : p.ev) {if (e.kind == 0) {p.t0 = -e.v; break;}}}
     return p;
   }
 
@@ -523,7 +527,7 @@ struct PropC17
       "heartbeat_stamp_before_last_data_stamp", "timeout_with_partly_filled_window", "repeated_timeout",
       "recovery_after_timeout_with_full_window", "stamp_after_timeout_with_partly_filled_window",
       "window_one_stamp_short_of_full", "window_just_full", "window_rollover_with_irregular_periods",
-      "first_stamp_zero_or_negative", "first_stamp_huge", "status_ok", "status_too_low", "status_too_high",
+      "first_stamp_zero_or_negative", "first_stamp_exactly_zero", "first_stamp_huge", "status_ok", "status_too_low", "status_too_high",
       "rate_exactly_on_target_with_zero_tolerance", "liveness_checked_after_faults_stopped", "timeouts",
       "monitor_configured_through_initialize", "copy_with_partly_filled_window"};
   }
